@@ -714,7 +714,9 @@ def _expand_decay_modes(
         fsp_options: list[list[str]] = []
         for fsp in _get_fs(mode):
             if isinstance(fsp, dict):
-                fsp_options.append(_get_modes(fsp))
+                # A particle with no decay mode at all (e.g. declared via an empty
+                # 'Decay' block in a .dec file) is effectively stable
+                fsp_options.append(_get_modes(fsp) or [next(iter(fsp.keys()))])
             elif isinstance(fsp, str):
                 fsp_options.append([fsp])
         for expanded_mode in product(*fsp_options):
